@@ -170,6 +170,14 @@ def main(argv):
             if v['key'].startswith('inconclusive:'):
                 inconclusive.append('%s: %s' % (j['name'], v['key']))
                 continue
+            if j.get('abort_is_diag') and v['key'].startswith('abort:'):
+                # assertion of library code on deliberately corrupt input:
+                # not an out-of-bounds access, listed as a diagnostic
+                e = diag_by_key.setdefault(v['key'], dict(
+                    count=0, detail='assertion abort on corrupt input (job %s, '
+                    'case seed %s)' % (j['name'], v.get('case_seed'))))
+                e['count'] += 1
+                continue
             if prefixes and not v['key'].startswith(tuple(prefixes)):
                 # observation belonging to another property decided by the
                 # same executions: listed, not judged here
